@@ -181,10 +181,10 @@ func Token(k, n int, alphabet string) string {
 		d0, p0, np = 0x05D0, 0x05DA, 17 // alef.. for digits, final kaf..tav for padding
 	case Digits:
 		s := strconv.Itoa(k)
-		for len(s) < n {
-			s = "1" + s // a leading 1 keeps distinct k distinct as long as n is fixed per use
+		for len(s) < n-1 {
+			s = "0" + s
 		}
-		return s
+		return "1" + s // 1, zero padding, k: distinct k give distinct numbers
 	default:
 		d0, p0, np = 'a', 'k', 16
 	}
@@ -285,18 +285,16 @@ func (g *gen) words(avail, size float64, max int, alphabet string) []string {
 		if alphabet == Hebrew {
 			n = 2 + int((seed>>(uint(i%8)*4))&0xF)%5 // 2..6
 		}
-		need := float64(n) * a
+		// a token is longer than asked for when its number needs more digits: measure the token itself
+		w := Token(g.k+1, n, alphabet)
+		need := float64(runeLen(w)) * a
 		if len(ws) > 0 {
 			need += a
 		}
 		if used+need > avail {
 			if len(ws) == 0 {
-				// narrower than the drawn word: use the shortest token that still fits (>= 2 runes)
-				n = int(avail / a)
-				if n < 2 {
-					n = 2
-				}
-				ws = append(ws, g.tok(n, alphabet))
+				// narrower than the drawn word: use the shortest token there is (it may stick out of a very narrow column)
+				ws = append(ws, g.tok(2, alphabet))
 			}
 			break
 		}
@@ -748,28 +746,28 @@ func finish(g *gen) {
 					maxX = f.X + f.W
 				}
 			}
-			n := rapid.IntRange(3, 6).Draw(t, "strayLen")
-			w := Advance * g.size * float64(n)
+			word := g.tok(rapid.IntRange(3, 6).Draw(t, "strayLen"), Lower)
+			w := Advance * g.size * float64(runeLen(word))
 			gap := float64(rapid.IntRange(8, 40).Draw(t, "strayGap"))
 			right := rapid.Bool().Draw(t, "strayRight")
 			x := maxX + gap
 			if !right {
 				x = minX - gap - w
 			}
-			if x >= 4 && x+w <= p.W-4 {
+			if x >= 4 && x+w <= p.W-4 && ref.Y+g.size <= p.H-BodyClear {
 				g.ln++
-				p.Frags = append(p.Frags, Frag{T: g.tok(n, Lower), X: r2(x), Y: ref.Y, W: r2(w), S: g.size, Role: RoleStray, Col: -1, Ln: g.ln})
+				p.Frags = append(p.Frags, Frag{T: word, X: r2(x), Y: ref.Y, W: r2(w), S: g.size, Role: RoleStray, Col: -1, Ln: g.ln})
 				g.use(FeatStray)
 			}
 		}
 		// a short word centred in a gutter (a label on a column rule, a fold mark): 2-3 glyphs of 6 pt type
 		if len(g.gutters) > 0 && g.want(FeatGutter, g.pct("gutterWord", 10)) {
 			gt := g.gutters[rapid.IntRange(0, len(g.gutters)-1).Draw(t, "gutterOf")]
-			n := rapid.IntRange(2, 3).Draw(t, "gutterLen")
-			w := Advance * 6 * float64(n)
+			word := g.tok(rapid.IntRange(2, 3).Draw(t, "gutterLen"), Lower)
+			w := Advance * 6 * float64(runeLen(word))
 			y := gt[2] + float64(rapid.IntRange(0, 100).Draw(t, "gutterY"))/100*(gt[3]-gt[2]-6)
 			g.ln++
-			p.Frags = append(p.Frags, Frag{T: g.tok(n, Lower), X: r2((gt[0] + gt[1] - w) / 2), Y: r2(y), W: r2(w), S: 6, Role: RoleGutter, Col: -1, Ln: g.ln})
+			p.Frags = append(p.Frags, Frag{T: word, X: r2((gt[0] + gt[1] - w) / 2), Y: r2(y), W: r2(w), S: 6, Role: RoleGutter, Col: -1, Ln: g.ln})
 			g.use(FeatGutter)
 		}
 		// lone glyph narrower than 5 pt on a baseline of its own (footnote mark, folio)
